@@ -276,6 +276,36 @@ Example C09_example_twice :
   /\ fanout_okb (fresh (nand_synth (two_way_fanout ex_nl))) (nand_synth (two_way_fanout ex_nl)) = true.
 Proof. vm_compute. repeat split; reflexivity. Qed.
 
+(* memory write ports count as readers: two memories written at the same address
+   under the same enable; address / enable / data get fan-out trees, the '@' nets
+   are rebuilt onto the leaves, behaviour and final memory contents are unchanged *)
+Definition ex_mem : netlist :=
+  mkNetlist [mkWire 1 2 KInput; mkWire 2 1 KInput; mkWire 3 2 KInput; mkWire 4 2 KOutput; mkWire 5 2 KOutput;
+             mkWire 6 2 KWire; mkWire 7 2 KWire]
+    [mkNet (OpMemRd 0) [1] 6; mkNet OpW [6] 4; mkNet (OpMemRd 1) [1] 7; mkNet OpW [7] 5;
+     mkNet (OpMemWr 0) [1; 3; 2] 0; mkNet (OpMemWr 1) [1; 3; 2] 0]
+    [mkMem 0 2 2 None; mkMem 1 2 2 None].
+
+Definition ex_mem_run (nl : netlist) : list (list Z) * list Z :=
+  let '(vs, st) := run nl 0 (init_state nl 0 [] [])
+                       [(fun w => if w =? 1 then 2 else if w =? 2 then 1 else 3);
+                        (fun w => if w =? 1 then 2 else if w =? 2 then 0 else 1);
+                        (fun w => if w =? 1 then 1 else if w =? 2 then 1 else 2)] in
+  (map (fun v => map v [4; 5]) vs, [smems st 0 2; smems st 1 2; smems st 0 1; smems st 1 1; smems st 0 0]).
+
+Example C09_example_memory_write_ports :
+  sanity_block ex_mem = true /\ post_two_way_fanout ex_mem = false
+  /\ post_two_way_fanout (two_way_fanout ex_mem) = true
+  /\ fanout_okb (fresh ex_mem) ex_mem = true /\ dco_okb ex_mem = true
+  /\ ex_mem_run (two_way_fanout ex_mem) = ex_mem_run ex_mem
+  /\ ex_mem_run (direct_connect_outputs ex_mem) = ex_mem_run ex_mem
+  /\ ex_mem_run ex_mem = ([[0; 0]; [3; 3]; [0; 0]], [3; 3; 2; 2; 0])
+  /\ forallb (fun n => match nop n with
+                       | OpMemWr _ => forallb (fun a => 7 <? a) (nargs n)
+                       | _ => true
+                       end) (nets (two_way_fanout ex_mem)) = true.
+Proof. vm_compute. repeat split; reflexivity. Qed.
+
 (* a pass sequence in both orders, and a three-pass sequence *)
 Example C09_example_orderings :
   ex_run (run_rpasses [PNand; PSelect] ex_nl) = ex_run ex_nl
